@@ -3,6 +3,7 @@ package props
 import (
 	"encoding/json"
 	"fmt"
+	"io"
 	"mime"
 	"net/http"
 	"net/url"
@@ -109,12 +110,13 @@ func c15Expect(method, ct, body, query string) (kind string, vals url.Values, de
 	case "query":
 		return kind, qv, nil, false, false
 	case "json":
-		dec := json.NewDecoder(strings.NewReader(body))
-		var m map[string]any
-		if err := dec.Decode(&m); err != nil || m == nil {
+		m, err := decodeJSONDoc(body)
+		if err != nil || m == nil {
 			return kind, nil, nil, true, false
 		}
-		if dec.More() {
+		dec := json.NewDecoder(strings.NewReader(body))
+		var skipFirst any
+		if dec.Decode(&skipFirst) == nil && dec.More() {
 			return kind, nil, nil, false, true // trailing data: not judged
 		}
 		return kind, nil, m, false, false
@@ -147,7 +149,12 @@ func c15Request(c *core.Ctx, n *spec.Node, method, ct, body, query string) bool 
 	if query != "" {
 		target += "?" + query
 	}
-	r, err := http.NewRequest(method, target, strings.NewReader(body))
+	var bodyReader io.Reader = strings.NewReader(body)
+	noBody := kind == "json" && body == "" && c.R.Intn(2) == 0
+	if noBody {
+		bodyReader = nil // a request built without any body: Body stays nil; still an undecodable JSON request
+	}
+	r, err := http.NewRequest(method, target, bodyReader)
 	if err != nil {
 		return true
 	}
@@ -155,6 +162,9 @@ func c15Request(c *core.Ctx, n *spec.Node, method, ct, body, query string) bool 
 		r.Header.Set("Content-Type", ct)
 	}
 	bodyNote := "as built by http.NewRequest"
+	if noBody {
+		bodyNote = "no body at all (Body == nil)"
+	}
 	switch c.R.Intn(8) {
 	case 0:
 		// chunked upload: the length of the body is not known in advance
